@@ -45,7 +45,7 @@ class PeptidePoolSplitter():
         else:
             self.sources = set()
             for source_group in self.order:
-                if isinstance(sources, str):
+                if isinstance(source_group, str):
                     self.sources.add(source_group)
                 else:
                     self.sources.update([s for s in source_group if s not in ['+', '*']])
